@@ -1,0 +1,44 @@
+/*
+    Verification hooks (only compiled with the cargo feature `verif-hooks`).
+
+    H1: read-only, deterministic dumps of internal state (`verif_dump` methods, implemented
+        next to the private fields they read; helpers live here).
+    H2: a yield point that an external scheduler can install a callback for, called right
+        before the lock operations on shared interior-mutable state.
+
+    With the feature off (the default) nothing in this file is compiled.
+*/
+
+use std::fmt::Debug;
+use std::sync::atomic::{AtomicPtr, Ordering};
+
+/// Callback type for yield points. The argument names the call site.
+pub type YieldFn = fn(&'static str);
+
+static YIELD: AtomicPtr<()> = AtomicPtr::new(std::ptr::null_mut());
+
+/// Install (or with `None` remove) the global yield callback.
+pub fn set_yield_callback(f: Option<YieldFn>) {
+    let p = match f {
+        Some(f) => f as *mut (),
+        None => std::ptr::null_mut(),
+    };
+    YIELD.store(p, Ordering::SeqCst);
+}
+
+/// Called by the library right before it touches shared interior-mutable state.
+#[inline]
+pub(crate) fn yield_point(site: &'static str) {
+    let p = YIELD.load(Ordering::SeqCst);
+    if !p.is_null() {
+        // SAFETY: the pointer was produced from a `YieldFn` in `set_yield_callback`
+        let f: YieldFn = unsafe { std::mem::transmute::<*mut (), YieldFn>(p) };
+        f(site);
+    }
+}
+
+/// Append one dump section `name=<debug>` followed by a newline
+pub(crate) fn section<T: Debug>(out: &mut String, name: &str, value: &T) {
+    use std::fmt::Write;
+    let _ = writeln!(out, "{}={:?}", name, value);
+}
